@@ -3,19 +3,33 @@
 import json, subprocess
 
 CLAIMS = {
- "C04": ("(*Access).CanGet is proved to grant exactly when the access answer carries no error and get==true and to return the answer's own error otherwise (any access error is a denial).",
+ "C03": ("Hold-queue clauses: a held event is processed only while no hold reason is set (unqueueEvents, for all queue contents); the connection step of Subscription.Event drops events before the resource is handed over, appends at the tail of the hold queue while any reason is set (prefix unchanged) and processes at once otherwise; the cache work queue (EventSubscription.Enqueue) appends at the tail; a reset re-fetch answer always ends the resetting state before it is processed. Not decided: end-to-end order across goroutines, processEvent itself (trusted).",
+         "5/C03"),
+ "C04": ("(*Access).CanGet grants exactly when the verdict has no error and get==true; the access layer hands a well-formed verdict to every waiter (Cache.Access, wsConn.Access, loadAccess) and CanGet's callback receives nil exactly for a grant; in get/subscribe/resource-response handlers resource data is released only inside closures whose creation is dominated by err==nil of that callback (closure preconditions); a verdict is cached only if it is a result or a plain denial; reaccess, token change and reset drop the cached verdict unconditionally (handleReaccess, setToken). Not decided: validity of a grant between two connection-worker steps; GetRPCResources/populate (trusted).",
          "5/C04"),
- "C05": ("(*Access).CanCall is proved, for all strings of any length, to grant exactly '*' or an exact entry of the comma-separated list and to return the access error (system.accessDenied when simply not granted) otherwise.",
+ "C05": ("(*Access).CanCall is exactly '*' or an exact list entry for all strings; wsConn.call forwards to Cache.Call only under err==nil of CanCall's verdict and with (own connection, resource name/query of the subscription, method, current token, params); AuthResource forwards without access check with the connection's own id and token; wsConn.Access passes the connection's current token; handleReaccess drops the cached verdict.",
          "5/C05"),
- "C12": ("Pattern clauses: ParseResourcePattern accepts exactly the valid patterns (for all byte strings) and ResourcePattern.Match equals the NATS wildcard semantics (* exactly one token, > one or more trailing tokens; wildcard-free patterns match exactly themselves) for all names without empty tokens; two induction lemmas about the recursive specification are machine-checked.",
+ "C06": ("setToken replaces token/tid and, if a token was set before, leaves every subscription's verdict dropped or its re-access pending (all map orders); reaccess defers while the queue is held; handleReaccess drops the verdict, holds the event queue before the single access request when direct subscriptions exist; a denial removes all direct subscriptions in one step with exactly one unsubscribe frame (unsubscribeDirect, validateAccess); deferred re-access runs before any held event and no held event is processed while a hold reason is set.",
+         "5/C06"),
+ "C07": ("Linear continuation discipline: rpc.HandleRequest replies exactly once now or hands exactly one reply-once closure to exactly one request method (and never for frames without id); every WS request handler of wsConn and every nested closure invokes or hands on its response callback exactly once on every path (GetResource, SubscribeResource, UnsubscribeResource, CallResource, AuthResource, NewResource, call, handleCallAuthResponse, handleResourceResult, CanGet, CanCall, loadAccess, OnReady, Access, Cache.Access/Call/Auth/sendRequest); the access verdict step invokes every waiting callback exactly once. Assumed: callbacks stored in pending fields are consumed exactly once (known finding F4 on dispose), MQ client invokes its callback once (C18).",
+         "5/C07"),
+ "C08": ("Direct-count arithmetic of addCount (limit 256), removeCount, UnsubscribeByRID (succeeds exactly when live, subscribed and count<=direct; then exactly -count; else unchanged), UnsubscribeResource's answer, HandleRequest passes only positive counts; failed get/subscribe/resource-response paths give the direct subscription back (error-path deltas of the handler closures); unsubscribeDirect zeroes the count. Not decided: success paths through event release, the collector (tryDelete trusted).",
+         "5/C08"),
+ "C09": ("getSubscription hands out exactly one use, subscribes to the MQ before returning when asked, and leaves no use behind on failure; sendRequest takes one use before the request and its response step releases exactly one; ResourceSubscription.Unsubscribe releases exactly the registration it removes (uses minus registered subscribers is invariant); a failed get unregisters the resource and releases exactly the waiting subscribers' uses; Cache.Subscribe adds a subscriber only after a successful subscribe. Not decided: eviction timing, gauges.",
+         "5/C09"),
+ "C10": ("Fragment: every access/call/auth request of a connection is issued with that connection as requester and its current token (call-site assertions in wsConn.Access, call, AuthResource); the token-reset fan-out set gains a connection in AddConn and loses it in RemoveConn; parseRID splits at the first '?'. Not decided: cid never appears in frames, event fan-out sets.",
+         "5/C10"),
+ "C11": ("wsConn.Enqueue refuses work exactly when disposing and then leaves the queue untouched; dispose is idempotent, marks the connection, leaves the token-reset set once, and disposes every subscription (all map orders); Subscription.Dispose is idempotent, ends with no resource/pending work/throttle and gives a loaded, not deleted resource back exactly once; Loaded gives a successfully loaded resource back exactly once when the connection refuses the work, and a disposed subscription gives it back in the queued step; the HTTP response step disposes the temporary connection on every exit.",
+         "5/C11"),
+ "C12": ("Patterns: ParseResourcePattern accepts exactly the valid patterns and ResourcePattern.Match equals NATS wildcard semantics for all strings (two induction lemmas machine-checked). Re-fetch: a resource that is not already resetting is marked and exactly one get request for 'get.'+name is issued (directly or via the throttle), an already resetting one is left alone; the answer ends the resetting state before processing. Not decided yet: diff correctness (processResetModel, lcs), forEachMatch.",
          "5/C12"),
- "C14": ("The validators IsValidRID / IsValidRIDPart are proved equal to the token grammar of the statement for all byte strings (incl. invalid UTF-8); parseRID splits at the first '?'.",
+ "C14": ("Validators equal the token grammar for all byte strings; rpc.HandleRequest reaches request methods only with valid resource ids (and a valid method part for call/auth), answers everything else itself; parseRID splits at the first '?'; the reset re-fetch subject is 'get.'+name; HTTP not-found answers 404. Not decided yet: apiHandler path handling, subject assembly in Cache.*",
          "5/C14"),
- "C15": ("Panic freedom (index, slice, nil dereference, nil map write, negative make, failed type assertion, explicit panic) of every procedure carrying a safety clause, for all inputs allowed by its requires clauses.",
+ "C15": ("Panic freedom (index, slice, nil dereference, nil map write, negative make, failed type assertion, explicit panic, division by zero) of every procedure carrying a safety clause, for all inputs allowed by its requires/assumes clauses.",
          "5/C15"),
- "C17": ("errorStatus equals the fixed code-to-status table; IsDirectResponseStatus/IsValidStatus are exactly the 300-599 rule; matchesOrigins equals byte-wise equality modulo ASCII case for all strings.",
+ "C17": ("errorStatus and httpError equal the fixed code-to-status table; IsDirectResponseStatus/IsValidStatus are exactly the 300-599 rule; MergeHeader never changes a protected header (Content-Type, CORS allow headers, every Sec-WebSocket-*), accumulates Set-Cookie, replaces the rest, for all header maps and iteration orders; matchesOrigins equals byte-wise equality modulo ASCII case; the HTTP response step turns methodNotFound into methodNotAllowed only for PUT/DELETE/PATCH.",
          "5/C17"),
- "C19": ("Throttle type: invariant 0<=running<=limit and queue non-empty only when saturated is preserved by Add and Done; Add starts the callback iff a slot is free and otherwise appends at the tail; Done releases FIFO; nil throttle is inert; the explicit panic is unreachable under running>0.",
+ "C19": ("Throttle type: invariant 0<=running<=limit and waiting only when saturated preserved by Add and Done; FIFO release; nil throttle inert; explicit panic unreachable under running>0. Call sites: the throttled access check and the throttled reset re-fetch call Done exactly once per answer, whatever the answer and whether or not the subscription still exists. Assumed: a started callback holds a slot (running>0) when its answer arrives.",
          "5/C19"),
 }
 NOTE = ("Trusted: the VC generator (/verif/govc), the SMT solvers (an obligation is discharged when z3 4.8.12, z3 5.1.0 or cvc5 1.0 answers unsat), "
